@@ -64,7 +64,7 @@ class Driver:
         if not os.path.exists(DRIVER):
             raise SystemExit(f"{DRIVER} missing: run `make -C {VERIF} build`")
         self.p = subprocess.Popen(
-            [DRIVER], stdin=subprocess.PIPE, stdout=subprocess.PIPE, bufsize=0
+            [DRIVER], stdin=subprocess.PIPE, stdout=subprocess.PIPE
         )
         self.calls = 0
 
@@ -79,20 +79,34 @@ class Driver:
         return out.decode().rstrip("\n")
 
     def ask_many(self, lines: list[str]) -> list[str]:
-        """Pipeline many commands (avoids a round trip per command)."""
+        """Pipeline many commands; a reader thread drains the replies so that neither pipe fills."""
         if not lines:
             return []
+        import threading
+
         out: list[str] = []
-        CH = 200
-        for i in range(0, len(lines), CH):
-            chunk = lines[i : i + CH]
-            self.p.stdin.write(("\n".join(chunk) + "\n").encode())
+        err: list[BaseException] = []
+
+        def reader() -> None:
+            try:
+                for _ in lines:
+                    o = self.p.stdout.readline()
+                    if not o:
+                        raise RuntimeError("model driver died")
+                    out.append(o.decode().rstrip("\n"))
+            except BaseException as e:  # noqa: BLE001
+                err.append(e)
+
+        t = threading.Thread(target=reader)
+        t.start()
+        try:
+            for i in range(0, len(lines), 100):
+                self.p.stdin.write(("\n".join(lines[i : i + 100]) + "\n").encode())
             self.p.stdin.flush()
-            for _ in chunk:
-                o = self.p.stdout.readline()
-                if not o:
-                    raise RuntimeError("model driver died")
-                out.append(o.decode().rstrip("\n"))
+        finally:
+            t.join()
+        if err:
+            raise err[0]
         self.calls += len(lines)
         return out
 
@@ -219,6 +233,25 @@ class Cfg:
 
     def as_json(self) -> dict:
         return dict(self.__dict__)
+
+
+def make_options(cfg: Cfg):
+    """SerializerOptions for a configuration, without building a stream (may raise)."""
+    params = StreamParameters(
+        generalized_statements=cfg.gen,
+        rdf_star=cfg.star,
+        delimited=cfg.delim,
+        namespace_declarations=cfg.nd,
+        stream_name=cfg.name,
+    )
+    preset = LookupPreset(max_names=cfg.maxn, max_prefixes=cfg.maxp, max_datatypes=cfg.maxd)
+    flow = None
+    if cfg.flow is not None:
+        k, lt, fs = cfg.flow
+        flow = FLOW_CLASSES[k](logical_type=lt, frame_size=fs)
+    return SerializerOptions(
+        flow=flow, frame_size=cfg.frame_size, logical_type=cfg.logical, params=params, lookup_preset=preset
+    )
 
 
 def make_stream(cfg: Cfg):
